@@ -1852,3 +1852,11 @@ fn read_residuals<R: BitRead, I: SignedInteger>(
         _ => Err(Error::InvalidCodingMethod),
     }
 }
+
+// verification hook (add-only): harnesses live outside the repository and
+// are compiled only by the Kani compiler, which is what sets `cfg(kani)`
+#[cfg(kani)]
+#[allow(dead_code, unused_imports, unused_variables, missing_docs)]
+mod verif_kani {
+    include!(concat!(env!("FLAC_CODEC_VERIF_KANI"), "/k_decode.rs"));
+}
